@@ -233,6 +233,6 @@ func init() {
 	PropRules["C04"] = []string{"ORD-4", "ORD-6", "ORD-8"}
 	PropRules["C05"] = []string{"OWN-1", "OWN-2", "OWN-3", "OWN-4", "OWN-5", "OWN-6", "OWN-7"}
 	PropRules["C14"] = []string{"ERR-1", "ERR-2", "ERR-3", "ERR-4", "ERR-5", "ERR-6"}
-	PropRules["C11"] = []string{"TOK-9", "TOK-10", "TOK-11", "TOK-7", "PAN-2", "PAN-4"}
+	PropRules["C11"] = []string{"TOK-9", "TOK-10", "TOK-11", "TOK-12", "TOK-7", "PAN-2", "PAN-4"}
 	PropRules["C13"] = []string{"COD-1", "COD-12", "COD-2", "COD-3", "COD-4"}
 }
